@@ -14,6 +14,7 @@ package server
 
 import (
 	"bytes"
+	"encoding/base64"
 	"context"
 	"encoding/json"
 	"fmt"
@@ -32,6 +33,7 @@ import (
 	"github.com/ollama/ollama/discover"
 	"github.com/ollama/ollama/fs/ggml"
 	"github.com/ollama/ollama/llm"
+	"github.com/ollama/ollama/openai"
 	"github.com/ollama/ollama/template"
 	"github.com/ollama/ollama/zzverif"
 )
@@ -63,6 +65,62 @@ func c19CPU() discover.GpuInfoList {
 	g.TotalMemory = 64 << 30
 	g.FreeMemory = 64 << 30
 	return discover.GpuInfoList{g}
+}
+
+// OpenAI-compatible entry (round 7): POST /v1/chat/completions -> openai.ChatMiddleware (fromChatRequest) ->
+// ChatHandler.  A message's content is a string or an array of parts; every part becomes its own api.Message.
+type c19OPart struct {
+	isImg bool
+	text  string
+	img   c19Img
+}
+
+type c19OMsg struct {
+	role    string
+	isParts bool
+	content string
+	parts   []c19OPart
+}
+
+// c19Flatten is the SPECIFICATION of the conversion (written from the OpenAI semantics, not from the code):
+// a string content is one message, each text part a message without images, each image part a message
+// with no text and that one image.
+func c19Flatten(oreq []c19OMsg) []c19Msg {
+	var out []c19Msg
+	for _, m := range oreq {
+		if !m.isParts {
+			out = append(out, c19Msg{role: m.role, content: m.content})
+			continue
+		}
+		for _, p := range m.parts {
+			if p.isImg {
+				out = append(out, c19Msg{role: m.role, imgs: []c19Img{p.img}})
+			} else {
+				out = append(out, c19Msg{role: m.role, content: p.text})
+			}
+		}
+	}
+	return out
+}
+
+func c19OMsgTokens(oreq []c19OMsg) string {
+	var sb strings.Builder
+	fmt.Fprintf(&sb, "%d", len(oreq))
+	for _, m := range oreq {
+		if !m.isParts {
+			fmt.Fprintf(&sb, " %s S %s", m.role, zzverif.Hex([]byte(m.content)))
+			continue
+		}
+		fmt.Fprintf(&sb, " %s P %d", m.role, len(m.parts))
+		for _, p := range m.parts {
+			if p.isImg {
+				fmt.Fprintf(&sb, " I %d 1", p.img.src)
+			} else {
+				fmt.Fprintf(&sb, " T %s", zzverif.Hex([]byte(p.text)))
+			}
+		}
+	}
+	return sb.String()
 }
 
 // c19Request is createRequest with a cancellable request context (the scheduler releases the
@@ -150,7 +208,9 @@ func TestVerifC19Handler(t *testing.T) {
 
 	idx := 0
 	// modelCtx / reqCtx < 0: not set (PARAMETER num_ctx of the model / "num_ctx" option of the request)
-	runH := func(tc *c19Case, sys string, mm, req []c19Msg, parallelEnv string, modelCtx, reqCtx int) {
+	// oreq != nil: the request goes through the OpenAI-compatible entry; `req` is then the specified
+	// conversion c19Flatten(oreq) (used by the model-free L2 clauses), the op line carries the OpenAI form
+	runH := func(tc *c19Case, sys string, mm, req []c19Msg, parallelEnv string, modelCtx, reqCtx int, oreq []c19OMsg) {
 		tools := tc.tools
 		i := idx
 		idx++
@@ -220,7 +280,45 @@ func TestVerifC19Handler(t *testing.T) {
 			if reqCtx >= 0 {
 				creq.Options = map[string]any{"num_ctx": reqCtx}
 			}
-			w := c19Request(rctx, cs.ChatHandler, creq)
+			var w *httptest.ResponseRecorder
+			if oreq == nil {
+				w = c19Request(rctx, cs.ChatHandler, creq)
+			} else {
+				var om []map[string]any
+				for _, m := range oreq {
+					if !m.isParts {
+						om = append(om, map[string]any{"role": c19RoleNames[m.role], "content": m.content})
+						continue
+					}
+					parts := []map[string]any{}
+					for k, p := range m.parts {
+						switch {
+						case !p.isImg:
+							parts = append(parts, map[string]any{"type": "text", "text": p.text})
+						case k%2 == 0:
+							parts = append(parts, map[string]any{"type": "image_url", "image_url": map[string]any{"url": "data:image/png;base64," + base64.StdEncoding.EncodeToString(e.imgBytes(p.img))}})
+						default:
+							parts = append(parts, map[string]any{"type": "image_url", "image_url": "data:image/jpeg;base64," + base64.StdEncoding.EncodeToString(e.imgBytes(p.img))})
+						}
+					}
+					om = append(om, map[string]any{"role": c19RoleNames[m.role], "content": parts})
+				}
+				obody := map[string]any{"model": name, "messages": om}
+				if len(tools) > 0 {
+					obody["tools"] = tools
+				}
+				var b bytes.Buffer
+				if err := json.NewEncoder(&b).Encode(obody); err != nil {
+					panic(err)
+				}
+				eng := gin.New()
+				eng.POST("/v1/chat/completions", openai.ChatMiddleware(), cs.ChatHandler)
+				rec := NewRecorder()
+				hreq, _ := http.NewRequestWithContext(rctx, http.MethodPost, "/v1/chat/completions", &b)
+				hreq.Header.Set("Content-Type", "application/json")
+				eng.ServeHTTP(rec, hreq)
+				w = rec.ResponseRecorder
+			}
 			body = w.Body.String()
 			switch {
 			case w.Code == http.StatusOK && !called && strings.Contains(body, `"done_reason":"load"`):
@@ -254,6 +352,17 @@ func TestVerifC19Handler(t *testing.T) {
 		createRequest(t, s.DeleteHandler, api.DeleteRequest{Model: name})
 		line := fmt.Sprintf("hchat %d %d %s %s %d %s %s %s %s %s", e.fixed, dflt, opt(modelCtx), opt(reqCtx), loadedParallel,
 			zzverif.Hex([]byte(tc.src)), tc.ast+fmt.Sprintf(" %d %s", len(tools), zzverif.Hex([]byte(tools.String()))), zzverif.Hex([]byte(sys)), c19MsgTokens(mm), c19MsgTokens(req))
+		if oreq != nil {
+			line = fmt.Sprintf("ochat %d %d %s %s %d %s %s %s %s %s", e.fixed, dflt, opt(modelCtx), opt(reqCtx), loadedParallel,
+				zzverif.Hex([]byte(tc.src)), tc.ast+fmt.Sprintf(" %d %s", len(tools), zzverif.Hex([]byte(tools.String()))), zzverif.Hex([]byte(sys)), c19MsgTokens(mm), c19OMsgTokens(oreq))
+			out.Count("handler_via_openai_entry")
+			for _, m := range oreq {
+				if m.isParts {
+					out.Count("handler_openai_message_with_parts")
+					break
+				}
+			}
+		}
 		out.Count(fmt.Sprintf("handler_tools_%d", len(tools)))
 		out.Case(line, impl)
 		out.Count(fmt.Sprintf("handler_loaded_parallel_%d", loadedParallel))
@@ -423,7 +532,7 @@ func TestVerifC19Handler(t *testing.T) {
 		}
 		for _, ln := range strings.Split(string(raw), "\n") {
 			f := strings.Fields(ln)
-			if len(f) < 6 || f[0] != "hchat" {
+			if len(f) < 6 || (f[0] != "hchat" && f[0] != "ochat") {
 				continue
 			}
 			// reuse the chat-line parser: chat <variant> <mllama> <proj> <limit> <mode> <src> <tmpl…> <msgs>
@@ -475,8 +584,33 @@ func TestVerifC19Handler(t *testing.T) {
 				return ms
 			}
 			mm := readMsgs()
+			if f[0] == "ochat" {
+				k, _ := strconv.Atoi(next())
+				var oreq []c19OMsg
+				for ; k > 0; k-- {
+					om := c19OMsg{role: next()}
+					if next() == "S" {
+						om.content = string(zzverif.Unhex(next()))
+					} else {
+						om.isParts = true
+						np, _ := strconv.Atoi(next())
+						for ; np > 0; np-- {
+							if next() == "T" {
+								om.parts = append(om.parts, c19OPart{text: string(zzverif.Unhex(next()))})
+							} else {
+								src, _ := strconv.Atoi(next())
+								next()
+								om.parts = append(om.parts, c19OPart{isImg: true, img: c19Img{src: src, ok: true}})
+							}
+						}
+					}
+					oreq = append(oreq, om)
+				}
+				runH(tc, sys, mm, c19Flatten(oreq), parallelEnv, modelCtx, -1, oreq)
+				continue
+			}
 			req := readMsgs()
-			runH(tc, sys, mm, req, parallelEnv, modelCtx, reqCtx)
+			runH(tc, sys, mm, req, parallelEnv, modelCtx, reqCtx, nil)
 		}
 		return
 	}
@@ -581,6 +715,36 @@ func TestVerifC19Handler(t *testing.T) {
 			reqCtx = -1 // default context length
 		}
 
-		runH(tc, sys, mm, req, parallelEnv, modelCtx, reqCtx)
+		// one request in four through the OpenAI-compatible entry: contents as strings or as arrays of text /
+		// image parts (every image is a part); no request option for the context length there
+		if len(req) > 0 && r.Chance(1, 4) {
+			var oreq []c19OMsg
+			for _, m := range req {
+				om := c19OMsg{role: m.role, content: m.content}
+				if len(m.imgs) > 0 || r.Chance(1, 3) {
+					om.isParts = true
+					ws := strings.Fields(m.content)
+					if len(ws) > 1 && r.Chance(1, 2) {
+						k := r.Range(1, len(ws)-1)
+						om.parts = append(om.parts, c19OPart{text: strings.Join(ws[:k], " ")}, c19OPart{text: strings.Join(ws[k:], " ")})
+					} else if m.content != "" || r.Chance(1, 2) {
+						om.parts = append(om.parts, c19OPart{text: m.content})
+					}
+					for _, im := range m.imgs {
+						pos := r.Intn(len(om.parts) + 1)
+						om.parts = append(om.parts[:pos], append([]c19OPart{{isImg: true, img: im}}, om.parts[pos:]...)...)
+					}
+				}
+				oreq = append(oreq, om)
+			}
+			if flat := c19Flatten(oreq); len(flat) > 0 {
+				if reqCtx >= 0 {
+					modelCtx, reqCtx = reqCtx, -1
+				}
+				runH(tc, sys, mm, flat, parallelEnv, modelCtx, -1, oreq)
+				continue
+			}
+		}
+		runH(tc, sys, mm, req, parallelEnv, modelCtx, reqCtx, nil)
 	}
 }
